@@ -10,7 +10,9 @@
 
     The environment loop is the one after fix 3899f15 (entries without '=' are
     skipped); the loop before the fix is kept as [env_map_unrepaired] /
-    [parse_flags_unrepaired] for the refutation theorems only.
+    [parse_flags_unrepaired] for the refutation theorems only; likewise the version
+    that dropped the error of f.Set for environment/file values (before fix 12b472e) is
+    kept as [parse_flags_set_error_dropped].
 
     Environment names are upper-cased with [strings.ToUpper]; the model's [upper]
     is exact on ASCII names (the harness excludes non-ASCII names from the
@@ -179,20 +181,45 @@ Section ParseFlags.
         end
     end.
 
+  (* flagset.go:131-153 (after fix 12b472e): the value found in the environment or the file is
+     handed to f.Set; if the option's type rejects it, ParseFlags returns that error
+     ("invalid value ... for environment variable / property ...") and the remaining callbacks
+     return early.  Only ok/error is observable (config.Load returns nil, err), so the model
+     returns Err 1 -- the same class as flag.Parse's error for a rejected command-line value --
+     when some flag's env/file value is rejected. *)
+  Definition rejected (r : flag_result) : bool :=
+    match r_src r with
+    | SrcCmdline => false                       (* checked by flag.Parse already *)
+    | _ => match rev (r_calls r) with v :: _ => bad (r_name r) v | [] => false end
+    end.
+
+  Definition finish_visit (rs : list flag_result) : outcome (list flag_result) :=
+    if existsb rejected rs then Err 1 else Ok rs.
+
   (* FlagSet.ParseFlags(args, environ, prefixes, p) *)
   Definition parse_flags (args environ prefixes : list str) (props : option smap)
     : outcome (list flag_result) :=
     do calls <- parse_args args [];
     let prefixes := match prefixes with [] => [[]] | _ => prefixes end in
     let env := env_map environ [] in
-    Ok (map (visit calls prefixes env props) flags).
+    finish_visit (map (visit calls prefixes env props) flags).
 
-  (* ParseFlags before fix 3899f15 (refutation theorems only) *)
+  (* ParseFlags before fix 3899f15 only (panic on an entry without '='; refutation theorems only) *)
   Definition parse_flags_unrepaired (args environ prefixes : list str) (props : option smap)
     : outcome (list flag_result) :=
     do calls <- parse_args args [];
     let prefixes := match prefixes with [] => [[]] | _ => prefixes end in
     do env <- env_map_unrepaired environ [];
+    finish_visit (map (visit calls prefixes env props) flags).
+
+  (* ParseFlags before fix 12b472e only (finding F-C15-3, repaired in /repo; refutation theorem
+     only):  f.Set(fl.Name, val)  with the error dropped -- a value the type rejects is applied
+     as far as the failed Set applies it, the flag counts as set, and ParseFlags returns nil *)
+  Definition parse_flags_set_error_dropped (args environ prefixes : list str) (props : option smap)
+    : outcome (list flag_result) :=
+    do calls <- parse_args args [];
+    let prefixes := match prefixes with [] => [[]] | _ => prefixes end in
+    let env := env_map environ [] in
     Ok (map (visit calls prefixes env props) flags).
 End ParseFlags.
 
